@@ -273,7 +273,8 @@ func (w *world) relList(l []string) []string {
 // opResult is what a child that ran to completion reports.
 type opResult struct {
 	Returned bool   `json:"returned"`
-	Err      string `json:"err"` // "" = nil
+	Err      string `json:"err"`                // "" = nil
+	Reopened string `json:"reopened,omitempty"` // fstree follow-up: what Get served right after the backend was re-opened
 }
 
 // judgeReturn adds the findings that relate the operation's return value to the state.
